@@ -37,14 +37,17 @@ theorem fireOf_ok {first : Bool} {nd : Node} {st : NodeSt} {ev : Ev} {f : Option
     (f = none ∧ ev.fire = false) ∨
     (∃ r x, f = some { inp := r, given := x, ret := nd.ret r, gen := nd.gen r x, out := nd.apply r x } ∧
       ev.fire = true ∧ (if first then r = [] else st.q.head? = some r) ∧
-      (if nd.nodep then st.nq.head? = some x else x = ev.x)) := by
+      (if nd.nodep then st.nq.head? = some x else x = ev.x) ∧ nd.guard r = true) := by
   unfold fireOf at h
   by_cases hf : ev.fire = true
   · simp only [hf, if_true] at h
     right
     split at h
     · rename_i r x h1 h2
-      refine ⟨r, x, ?_, hf, ?_, ?_⟩
+      by_cases hg : nd.guard r = true
+      case neg => simp [hg] at h
+      simp only [hg, if_true] at h
+      refine ⟨r, x, ?_, hf, ?_, ?_, hg⟩
       · cases h; rfl
       · by_cases hfi : first = true
         · simp only [hfi, if_true] at h1 ⊢; cases h1; rfl
@@ -104,7 +107,7 @@ theorem local_step {first : Bool} {prev : List Rec} {nd : Node} {st : NodeSt} {h
       by_cases hlt : st.q.length < nd.cap
       · left; exact hlt
       · right; exact (hroom (by omega)).2
-  rcases fireOf_ok hf with ⟨hfn, hfire⟩ | ⟨r, x, hfs, hfire, hr, hx⟩
+  rcases fireOf_ok hf with ⟨hfn, hfire⟩ | ⟨r, x, hfs, hfire, hr, hx, _⟩
   · -- the combiner does not run
     subst hfn
     simp only [Option.isSome_none, Bool.false_and, Bool.false_eq_true, if_false, addOut, Option.map_none,
@@ -389,7 +392,8 @@ def WfOuts : List Node → List NodeOut → Prop
   | [], [] => True
   | nd :: nds, o :: os =>
     (∀ f, o.fired = some f →
-      f.ret = nd.ret f.inp ∧ f.gen = nd.gen f.inp f.given ∧ f.out = nd.apply f.inp f.given) ∧
+      f.ret = nd.ret f.inp ∧ f.gen = nd.gen f.inp f.given ∧ f.out = nd.apply f.inp f.given ∧
+      nd.guard f.inp = true) ∧
     WfOuts nds os
   | _, _ => False
 
@@ -426,9 +430,9 @@ theorem stepNodes_wf (nodes : List Node) :
                 refine ⟨?_, ih false _ sts evs sts2 outs2 hrec⟩
                 intro f' hf'
                 simp only at hf'
-                rcases fireOf_ok hf with ⟨hn, _⟩ | ⟨r, x, hs, _, _, _⟩
+                rcases fireOf_ok hf with ⟨hn, _⟩ | ⟨r, x, hs, _, _, _, hg⟩
                 · rw [hn] at hf'; cases hf'
-                · rw [hs] at hf'; cases hf'; exact ⟨rfl, rfl, rfl⟩
+                · rw [hs] at hf'; cases hf'; exact ⟨rfl, rfl, rfl, hg⟩
 
 theorem run_append (nodes : List Node) (l1 l2 : List Label) :
     ∀ (s s' : State) (os : List (List NodeOut)), run nodes s (l1 ++ l2) = .ok (s', os) →
